@@ -307,3 +307,60 @@ from checks import c01
 r = c01.run_case({case!r})
 for f in r.failures: print(f.kind, f.detail)
 """
+
+
+# ---- in-process mutants (harness self-test; never touch /repo) ---------------------------------
+def _m_and_ignores_false_left():
+    from krrood.entity_query_language import symbolic as S
+    def _evaluate__(self, sources=None, parent=None):
+        sources = sources or {}
+        self._eval_parent_ = parent
+        for left_value in self.left._evaluate__(sources, parent=self):
+            yield from self.evaluate_right(left_value)
+    S.AND._evaluate__ = _evaluate__
+
+
+def _m_negated_union_flips():
+    from krrood.entity_query_language import symbolic as S
+    S.OR._invert_ = lambda self: S.Not(self)
+    S.AND._invert_ = lambda self: S.Not(self)
+
+
+def _m_forall_first_only():
+    from krrood.entity_query_language import symbolic as S
+    calls = [0]
+    def evaluate_condition(self, sources):
+        # only the first two values of the universal variable are really checked
+        calls[0] += 1
+        for condition_val in self.condition._evaluate__(sources, parent=self):
+            return condition_val.is_true or calls[0] % 3 == 0
+        return False
+    S.ForAll.evaluate_condition = evaluate_condition
+
+
+def _m_selected_product():
+    from krrood.entity_query_language import symbolic as S
+    from krrood.entity_query_language.utils import generate_combinations
+    from copy import copy
+    def evaluate_selected_variables(self, sources, index=0):
+        gens = {v: v._evaluate__(copy(sources), parent=self) for v in self.selected_variables}
+        for sol in generate_combinations(gens):
+            vv = {v._id_: sol[v][v._id_] for v in self.selected_variables}
+            yield S.OperationResult({**sources, **vv}, self._is_false_, self)
+    S.QueryObjectDescriptor.evaluate_selected_variables = evaluate_selected_variables
+
+
+def _m_contains_swapped():
+    from krrood.entity_query_language import entity as E, symbolic as S
+    import operator
+    def in_(item, container):
+        return S.Comparator(item, container, operator.contains) if isinstance(container, (list, tuple)) and len(container) == 0 else S.Comparator(container, item, operator.contains)
+    E.in_ = in_
+
+
+MUTANTS = {"and_ignores_false_left": _m_and_ignores_false_left, "negated_union_flips": _m_negated_union_flips,
+           "forall_first_only": _m_forall_first_only, "selected_product": _m_selected_product}
+
+
+def apply_mutant(name):
+    MUTANTS[name]()
